@@ -186,7 +186,11 @@ inline Val doLoad1(State &S, const Val &p, Type *ty, const Instruction *I) {
   if (!checkAccess(S, p, n, n, false, I, "load")) return dflt();
   checkInit(S, p, n, n, I, "load");
   Region &R = S.regions[p.reg];
-  if (R.kind == RK_ERRNO) return S.errnoSet ? S.errnoVal : Val::top(32);
+  if (R.kind == RK_ERRNO) {
+    // errno as left by the caller is ambient state: a result that depends on it depends on the call history
+    if (!S.errnoSet) { Val v = Val::top(32); v.ambient = true; return v; }
+    return S.errnoVal;
+  }
   i128 olo, ohi; offsetBounds(S, p, olo, ohi);
   if (R.traced) markRead(S, p.reg, olo, ohi + n);
   if (R.gv && R.gv->hasInitializer() && (R.gv->isConstant() || !R.d)) return loadGlobalConst(S, R, ty, olo, ohi, n, &p.kb, p.hascs ? &p.cs : nullptr);
